@@ -2395,14 +2395,27 @@ func (interp *Interpreter) cfg(root *node, sc *scope, importPath, pkgName string
 				} else {
 					body := c.lastChild()
 					if len(c.child) > 1 {
-						cond := c.child[0]
-						cond.tnext = body.start
-						if i == l-1 {
-							setFNext(cond, n)
-						} else {
-							setFNext(cond, clauses[i+1].start)
+						// The expressions of the clause are evaluated in order until
+						// one is true. Start from the last one: fail is where to go
+						// when the expression and the following ones are false.
+						fail := n
+						if i < l-1 {
+							fail = clauses[i+1].start
 						}
-						c.start = cond.start
+						for j := len(c.child) - 2; j >= 0; j-- {
+							cond := c.child[j]
+							if cond.rval.IsValid() {
+								// The expression is a constant: there is nothing to execute.
+								if cond.rval.Bool() {
+									fail = body.start
+								}
+								continue
+							}
+							cond.tnext = body.start
+							setFNext(cond, fail)
+							fail = cond.start
+						}
+						c.start = fail
 					} else {
 						c.start = body.start
 					}
